@@ -111,7 +111,7 @@ def run_obligations(sel, known, tier, prop):
     out = {"results": [], "undecided": [], "violations": [], "known_hits": [], "cmds": []}
     units = sorted({o.unit for o in sel})
     all_obs = [o for o in vlib.load_obligations() if o.unit in units]
-    htimeout = HARNESS_TIMEOUT[tier]
+    htimeout = int(os.environ.get("VERIF_HARNESS_TIMEOUT", HARNESS_TIMEOUT[tier]))
     with Scratch(f"{prop}.{tier}") as s:
         idx = s.inject(all_obs, known)
         added = check_t2(s)
